@@ -329,6 +329,9 @@ class APE:
                 # value of a short-circuit operator materialised at a join: the CFG evaluated the left operand in its own
                 # block; _step recorded the operator's value when the left operand decided it, otherwise it is the
                 # truth of the right operand
+                d_ = self._chain_decided(st, n)
+                if d_ is not None:
+                    return ("c", 1 if d_ else 0)
                 r = strip(n["kids"][1])
                 if r["k"] == "BinaryOperator" and (r.get("op") in OPSETS or r.get("op") in ("&&", "||")) or \
                         (r["k"] == "UnaryOperator" and r.get("op") == "!"):
@@ -422,6 +425,28 @@ class APE:
             return ("c", 0)
         return None
 
+    def _chain_decided(self, st, n):
+        """a && b && c is ((a && b) && c): when an inner operator of the chain was decided on the way here (its recorded value
+        short-circuits this one as well), the value of n; else None."""
+        op = n.get("op")
+        l = strip(n["kids"][0])
+        while l is not None and l.get("k") == "BinaryOperator" and l.get("op") in ("&&", "||"):
+            v = st.nodeval.get(l["id"])
+            if v is not None and v[0] == "c":
+                if op == "&&" and l.get("op") == "&&" and v[1] == 0:
+                    return False
+                if op == "||" and l.get("op") == "||" and v[1] != 0:
+                    return True
+                if op == "&&" and v[1] == 0:
+                    return False
+                if op == "||" and v[1] != 0:
+                    return True
+                return None
+            if l.get("op") != op:
+                return None
+            l = strip(l["kids"][0])
+        return None
+
     def _localobj(self, key, n):
         """Name of the local object (struct, or array declared in the function) that lvalue n / key lies in, else None."""
         m = _LOCALSTRUCT.match(key)
@@ -505,6 +530,9 @@ class APE:
             # decided by the left operand's edge if it short-circuited, else it is the right operand
             if n["id"] in st.nodeval:
                 return bool(st.nodeval[n["id"]][1])
+            d_ = self._chain_decided(st, n)
+            if d_ is not None:
+                return d_
             return self.literal(st, n["kids"][1])
         if n["k"] == "BinaryOperator" and n.get("op") in OPSETS:
             l, r = n["kids"]
@@ -667,6 +695,21 @@ class APE:
                     st.env[key] = ("s", "%s.out%d#%d" % (name, i, st.fresh))
                     cev.outs[i] = st.env[key]
                     continue
+                if av is not None and av[0] == "s" and av[1].startswith("&") and "(" not in av[1] and "@" not in av[1] \
+                        and a["k"] == "DeclRefExpr" and a.get("dk") == "param" and st.frames:
+                    # a helper's pointer parameter bound to the address of a place of the caller (`&it->block_offset`): the callee
+                    # writes that place; what it wrote is this call's out-value
+                    st.fresh += 1
+                    key = av[1][1:]
+                    for k in [k for k in st.env if k.startswith((key + ".", key + "->", "*" + key))]:
+                        del st.env[k]
+                    lf = _lastfield(key)
+                    st.fver[lf] = st.fver.get(lf, 0) + 1
+                    st.env[key] = ("s", "%s.out%d#%d" % (name, i, st.fresh))
+                    cev.outs[i] = st.env[key]
+                    st.events.append(Event("store", n, B.id, key, st.env[key]))
+                    only_locals = False
+                    continue
                 only_locals = False
             if not only_locals:
                 wf = self.cg.call_wfields(self.unit, n, self.cur(st))
@@ -728,6 +771,22 @@ class APE:
                                 del st.env[k]
                         elif last in wf:
                             del st.env[k]
+            # out-parameters that are members of an object (`&rb->size`, `&h.shared`): what the callee wrote there is this
+            # call's out-value (assigned after the invalidation above, which forgets what the place held before)
+            for i in sorted(widx):
+                if i >= len(args) or i in cev.outs:
+                    continue
+                a = strip(args[i])
+                if a["k"] == "UnaryOperator" and a.get("op") == "&" and strip(a["kids"][0])["k"] == "MemberExpr":
+                    t0 = strip(a["kids"][0])
+                    tt = (t0.get("ct") or t0.get("t") or "")
+                    if "[" in tt or _STRUCTT.match(tt.strip()):
+                        continue
+                    key = self._valkey(st, t0)
+                    st.fresh += 1
+                    st.env[key] = ("s", "%s.out%d#%d" % (name, i, st.fresh))
+                    cev.outs[i] = st.env[key]
+                    st.events.append(Event("store", n, B.id, key, st.env[key]))
         st.nodeval[strip(n)["id"]] = rv
         return rv
 
